@@ -17,6 +17,9 @@ import (
 
 type SE struct{ V int }
 
+// SE2 is published by every SE handler when it is let go: asynchronous work that itself publishes (and persists)
+type SE2 struct{ V int }
+
 type closeStore struct {
 	closes atomic.Int64
 	fails  bool
@@ -55,7 +58,12 @@ func shutdownDomain(lines []string) []string {
 		} else {
 			bus = eb.New(eb.WithStore(cs))
 		}
-		eb.Subscribe(bus, func(e SE) { <-gate; finished.Done() }, eb.Async())
+		eb.Subscribe(bus, func(e SE) {
+			<-gate
+			eb.Publish(bus, SE2{e.V}) // needs the bus's store lock: Shutdown must not hold it while it waits for us
+			finished.Done()
+		}, eb.Async())
+		eb.Subscribe(bus, func(e SE2) {}, eb.Async())
 	}
 	var pending chan error
 	show := func(err error) string {
@@ -115,6 +123,19 @@ func shutdownDomain(lines []string) []string {
 			case <-time.After(150 * time.Millisecond):
 				pending = ch
 				out = append(out, "shutdown blocked")
+			}
+		case "shutdownc":
+			// a Shutdown call with a context of its own that is cancelled 20 ms into the call
+			c2, cancel2 := context.WithCancel(context.Background())
+			ch := make(chan error, 1)
+			go func() { ch <- bus.Shutdown(c2) }()
+			time.Sleep(20 * time.Millisecond)
+			cancel2()
+			select {
+			case err := <-ch:
+				out = append(out, "shutdownc "+show(err))
+			case <-time.After(2 * time.Second):
+				out = append(out, "!shutdownc did not return although its context was cancelled")
 			}
 		case "final":
 			time.Sleep(30 * time.Millisecond) // a late Close by an abandoned goroutine shows up here
